@@ -10,7 +10,101 @@ def qlJson (c : Fl) (es : List LElt) : Json :=
   Json.mkObj [("code", rats (es.map (·.code))), ("qs", rats (es.map (·.qs))), ("scale", rats (es.map (·.scale))),
     ("y", rats (es.map (·.y))), ("out", rats (es.map fun e => ste c e.x e.y))]
 
-def handle (j : Json) : Except String Json := do
+/-! history ops: ONE object threaded through a list of calls (Model/AutoFx.lean `qbRun` / `qlRun`, the
+    definitions `C05_history_fresh` / `C05_linear_history_fresh` are about); per step the float32 result,
+    the band flag and the public attributes the object carries after the call -/
+
+def axisToJson : AxisSpec → Json
+  | .none => Json.null
+  | .one a => Json.num (a : Int)
+  | .many l => Json.arr (l.map fun (a : Nat) => Json.num (a : Int)).toArray
+def epsToJson : EpsSpec → Json
+  | .none => Json.null
+  | .one a => Json.num (a : Int)
+  | .many l => Json.arr (l.map fun (a : Nat) => Json.num (a : Int)).toArray
+def optIntToJson : Option Int → Json
+  | none => Json.null
+  | some i => Json.num i
+
+def qbAttrsOfJson (cfg : Json) : Except String QBAttrs := do
+  pure { bits := ← getInt cfg "bits", integer := ← getInt cfg "integer", keepNeg := ← getBool cfg "keep_negative",
+         po2 := ← getBool cfg "po2", sa := ← getAxis cfg "sa", eps := ← getEps cfg "eps",
+         minE := ← getOptInt cfg "min_e", maxE := ← getOptInt cfg "max_e" }
+def qbAttrsToJson (a : QBAttrs) : Json :=
+  Json.mkObj [("bits", Json.num a.bits), ("integer", Json.num a.integer), ("keep_negative", Json.bool a.keepNeg),
+    ("po2", Json.bool a.po2), ("sa", axisToJson a.sa), ("eps", epsToJson a.eps), ("min_e", optIntToJson a.minE),
+    ("max_e", optIntToJson a.maxE)]
+def qlAttrsOfJson (cfg : Json) : Except String QLAttrs := do
+  pure { bits := ← getInt cfg "bits", integer := ← getInt cfg "integer", symmetric := ← getBool cfg "symmetric",
+         keepNeg := ← getBool cfg "keep_negative", po2 := ← getBool cfg "po2", sa := ← getAxis cfg "sa" }
+def qlAttrsToJson (a : QLAttrs) : Json :=
+  Json.mkObj [("bits", Json.num a.bits), ("integer", Json.num a.integer), ("symmetric", Json.bool a.symmetric),
+    ("keep_negative", Json.bool a.keepNeg), ("po2", Json.bool a.po2), ("sa", axisToJson a.sa)]
+
+def optSet {α : Type} (f : Json → Except String α) (j : Json) : Except String (Option α) :=
+  match j.getObjVal? "set" with
+  | .ok .null => pure none
+  | .ok v => do pure (some (← f v))
+  | .error _ => pure none
+
+def storedToJson (t : Option Stored) : Json :=
+  match t with
+  | none => Json.null
+  | some s => Json.mkObj [("shape", Json.arr (s.shape.map fun (a : Nat) => Json.num (a : Int)).toArray), ("vals", rats s.vals)]
+
+def histQB (j : Json) (eps : Rat) : Except String Json := do
+  let (_, f32, fu, fd) := ctxs eps
+  let a0 ← qbAttrsOfJson (← j.getObjVal? "cfg")
+  let pts : Option Stored ← (match j.getObjVal? "pts" with
+    | .ok .null => pure none
+    | .ok v => do pure (some { shape := ← getNatList v "shape", vals := ← getRatList v "vals" })
+    | .error _ => pure none)
+  let stepsJ ← (← j.getObjVal? "steps").getArr?
+  let steps ← stepsJ.toList.mapM fun sj => do
+    pure ({ set := ← optSet qbAttrsOfJson sj, chLast := ← getBool sj "ch_last", shape := ← getNatList sj "shape",
+            x := ← getRatList sj "x" } : QBStep)
+  let o : QBObj := { attrs := a0, frozen := pts.isSome, scale := pts }
+  let key (l : List QElt) := l.map fun t => (t.z, t.scale)
+  let rb := qbRun f32 o steps
+  let ru := qbRun fu o steps
+  let rd := qbRun fd o steps
+  let outs := (rb.zip (ru.zip rd)).map fun (b, u, d) =>
+    match b.2, u.2, d.2 with
+    | .ok eb, .ok eu, .ok ed =>
+      Json.mkObj [("F", qbJson f32 eb), ("band", Json.bool (key eu != key eb || key ed != key eb)),
+        ("attrs", qbAttrsToJson b.1.attrs), ("frozen", Json.bool b.1.frozen), ("stored", storedToJson b.1.scale)]
+    | .error x, _, _ => Json.mkObj [("err", (errJson x).getObjValD "err"), ("attrs", qbAttrsToJson b.1.attrs)]
+    | _, .error x, _ => Json.mkObj [("err", (errJson x).getObjValD "err"), ("attrs", qbAttrsToJson b.1.attrs)]
+    | _, _, .error x => Json.mkObj [("err", (errJson x).getObjValD "err"), ("attrs", qbAttrsToJson b.1.attrs)]
+  pure <| Json.mkObj [("steps", Json.arr outs.toArray)]
+
+def histQL (j : Json) (eps : Rat) : Except String Json := do
+  let (_, f32, fu, fd) := ctxs eps
+  let a0 ← qlAttrsOfJson (← j.getObjVal? "cfg")
+  let stepsJ ← (← j.getObjVal? "steps").getArr?
+  let steps ← stepsJ.toList.mapM fun sj => do
+    pure ({ set := ← optSet qlAttrsOfJson sj, chLast := ← getBool sj "ch_last", shape := ← getNatList sj "shape",
+            x := ← getRatList sj "x" } : QLStep)
+  -- default_quantization_scale of a string alpha: the scalar data_type_scale
+  let o : QLObj := { attrs := a0, qs := { shape := [], vals := [(a0.cfg true).dts] } }
+  let key (l : List LElt) := l.map fun t => (t.code, t.qs)
+  let rb := qlRun f32 o steps
+  let ru := qlRun fu o steps
+  let rd := qlRun fd o steps
+  let outs := (rb.zip (ru.zip rd)).map fun (b, u, d) =>
+    Json.mkObj [("F", qlJson f32 b.2), ("band", Json.bool (key u.2 != key b.2 || key d.2 != key b.2)),
+      ("attrs", qlAttrsToJson b.1.attrs), ("stored", storedToJson (some b.1.qs))]
+  pure <| Json.mkObj [("steps", Json.arr outs.toArray)]
+
+def handleHist (j : Json) : Except String Json := do
+  let op ← getStr j "op"
+  let eps ← getRat j "eps32"
+  match op with
+  | "qbits_hist" => histQB j eps
+  | "qlinear_hist" => histQL j eps
+  | _ => throw s!"unknown op {op}"
+
+def handle1 (j : Json) : Except String Json := do
   let op ← getStr j "op"
   let cfg ← j.getObjVal? "cfg"
   let shape ← getNatList j "shape"
@@ -46,5 +140,10 @@ def handle (j : Json) : Except String Json := do
     let key (l : List LElt) := l.map fun t => (t.code, t.qs)
     pure <| Json.mkObj [("E", qlJson e a), ("F", qlJson f32 b), ("band", Json.bool (key u != key b || key d != key b))]
   | _ => throw s!"unknown op {op}"
+
+def handle (j : Json) : Except String Json := do
+  match ← getStr j "op" with
+  | "qbits_hist" | "qlinear_hist" => handleHist j
+  | _ => handle1 j
 
 def main : IO Unit := lineLoop handle
